@@ -552,6 +552,22 @@ def corrupt_plan(rng: random.Random, p: Plan):
     return p
 
 
+def _arg_triple(a: ast.arguments, tab):
+    """[sid(arg), sid(default) or 0, 0 plain | 1 *vararg | 2 **kwarg] of a one-parameter `arguments`, else None."""
+    n = len(a.posonlyargs) + len(a.args) + len(a.kwonlyargs) + (a.vararg is not None) + (a.kwarg is not None)
+    if n != 1:
+        return None
+    if a.vararg is not None:
+        return [tab.sid(a.vararg), 0, 1]
+    if a.kwarg is not None:
+        return [tab.sid(a.kwarg), 0, 2]
+    if a.kwonlyargs:
+        d = a.kw_defaults[0]
+        return [tab.sid(a.kwonlyargs[0]), tab.sid(d) if d is not None else 0, 0]
+    arg = (a.posonlyargs + a.args)[0]
+    return [tab.sid(arg), tab.sid(a.defaults[0]) if a.defaults else 0, 0]
+
+
 # ----------------------------------------------------------------------------------------------------------------------
 # oracle: the same request carried out on a pure AST with Python's own list operations
 
@@ -574,9 +590,17 @@ def oracle(plan: Plan, pre_src: str, tab: Tables, mode='exec') -> Oracle:
     o.law = True
     o.expValid = True
     if plan.et == 'argelt':
-        o.law = False  # arguments._all: categories of the new elements depend on markers (d06 "arguments slices"); only
-        o.expCompiles = True  # Sync / atomicity are judged for these requests
-        o.newS = []
+        # arguments._all: the *category* a new parameter lands in depends on the markers around the slot (d06 "arguments
+        # slices") and is not judged; the sequence of parameters (arg node, its default, star kind) is: NodeTab!VFieldSeq
+        # gives the same triples for the tree, so SliceLaw / NothingElse apply. Refusals are always allowed (validity of
+        # the spliced list - default ordering, lambda annotations - is not decided here), see documented_refusal.
+        o.expCompiles = True
+        trip = [_arg_triple(el[0], tab) for el in elems]
+        if any(t is None for t in trip):
+            o.law = False
+            o.newS = []
+        else:
+            o.newS = trip
         return o
     if plan.et in ('arglike', 'cmpelt', 'mmapelt', 'attrelt'):
         # the merged order / the operator choice is not determined by a pure AST: SliceLaw + NothingElse judge the field,
@@ -987,6 +1011,8 @@ def documented_refusal(plan: Plan, pre_tree, o: Oracle) -> bool:
     - the real fields Call.args / Call.keywords / ClassDef.bases / ClassDef.keywords of a node that has both
       positional and keyword arglikes are edited through `_args` / `_bases` (d07_views "you can't break syntax ordering
       rules"; the two real lists do not determine the syntax order of the merged list)."""
+    if plan.et == 'argelt':
+        return True  # validity of the spliced parameter list is not decided by the harness (see oracle())
     if plan.kind == 'Compare' and plan.field == '_all' and 'op' not in plan.opts:
         return True  # d06: "If inserting to a Compare an extra operator MUST be added ... or as a separate `op` option"
     if plan.kind in ('Call', 'ClassDef') and plan.field in ('args', 'keywords', 'bases') and pre_tree is not None:
